@@ -962,7 +962,8 @@ class Interp:
         if func.qualname in self.stubs:
             env = self.bind(func, args, kwargs, node)
             result = self.stubs[func.qualname](self, func, env, node)
-            self.calls.append([func.qualname, list(args), dict(kwargs), self.site(node), result, env, snapshot_terms(self, result)])
+            self.calls.append([func.qualname, list(args), dict(kwargs), self.site(node), result, env, snapshot_terms(self, result),
+                               {k: snapshot_terms(self, v) for k, v in env.items()}])
             return result
         result = self._invoke(func, args, kwargs, node, fv)
         if unsqueezed:
@@ -977,6 +978,7 @@ class Interp:
         self.frames.append(fr)
         self.stack.append(func.qualname)
         rec = [func.qualname, list(args), dict(kwargs), self.site(node) if len(self.frames) > 1 else "<entry>", None, dict(env)]
+        rec_args = {k: snapshot_terms(self, v) for k, v in env.items()}
         self.calls.append(rec)
         try:
             try:
@@ -989,6 +991,7 @@ class Interp:
             self.frames.pop()
         rec[4] = ret
         rec.append(snapshot_terms(self, ret))
+        rec.append(rec_args)
         return ret
 
     def call_lambda(self, fv, args, kwargs, node):
